@@ -97,4 +97,24 @@ def keepPh (pat : Option String) (ph : String) : Bool :=
 def processingFilter (pat : Option String) (evs : List (Nat × String)) : List (Nat × String) :=
   evs.filter (fun e => keepPh pat e.2)
 
+/-! ### recombine_cpu_events (pipeline/overlap.py) -/
+
+/-- what the stage reads of an event -/
+structure REv where
+  uid : Nat
+  ph : String
+  flex : Bool            -- `args.jobhash` present and registered with the FLEX dialect
+  hasTS1 : Bool          -- FLEX `acc_event_cat` = `has.args.TS1`
+  name : String
+  pid : Int
+  tid : Option Int
+deriving Repr, DecidableEq
+
+/-- FLEX host slices (no `args.TS1`, not the `AIU Roundtrip` frame) are put on ONE thread id per process -/
+def recombined (e : REv) : Bool :=
+  e.flex && hasSub "X" e.ph && !e.hasTS1 && !hasSub e.name "AIU Roundtrip"
+
+def recombine (cpuTid : Int) (e : REv) : REv :=
+  if recombined e then { e with tid := some cpuTid } else e
+
 end AiuVerif.Small
